@@ -505,6 +505,12 @@ def prepare_free_list(rng, ses, xy, kind):
         for i in range(1, 1024):
             if not lo <= i < hi:
                 used[i] = foreign(rng, rng.choice(apps))
+    elif kind == "light":
+        for _ in range(rng.randint(1, 4)):
+            i = rng.randint(1, 1000)
+            app = rng.choice(apps)
+            for j in range(i, i + rng.choice((1, 2, 5, 20))):
+                used[j] = foreign(rng, app)
     elif kind == "head":
         for i in range(1, rng.randint(2, 1023)):
             used[i] = foreign(rng, apps[0])
@@ -524,10 +530,13 @@ def gen_session(chk, rng, idx, big=False):
     chips = sorted(ses.sim.chips)
     free = {}
     kinds = {}
+    # at most two chips start from a heavily used router (recording their contents dominates the trace size)
+    heavy = set(rng.sample(chips, min(len(chips), rng.choice((0, 1, 1, 2)))))
     for xy in chips:
-        kinds[xy] = rng.choice(("empty", "empty", "blocks", "blocks", "hole", "head", "alternate", "full"))
-        if big and rng.random() < 0.7:
-            kinds[xy] = "empty"
+        if xy in heavy and not (big and rng.random() < 0.7):
+            kinds[xy] = rng.choice(("blocks", "blocks", "hole", "head", "alternate", "full"))
+        else:
+            kinds[xy] = rng.choice(("empty", "light"))
         free[xy] = prepare_free_list(rng, ses, xy, kinds[xy])
     ses.label += " free-list=%s" % [kinds[xy] for xy in chips]
     ses.start()
@@ -542,10 +551,10 @@ def gen_session(chk, rng, idx, big=False):
             return 0
         if r < 0.2:
             return f + rng.choice((1, 1, 2, 50))                 # too big for the largest block
-        if r < 0.3:
+        if r < 0.3 and (buf >= 64 or f <= 64):
             return f                                            # exactly the largest block
         if r < 0.4:
-            return rng.randint(30, 200)
+            return rng.randint(30, 200) if buf >= 64 else rng.randint(20, 64)
         return rng.choice((1, 1, 2, 3, 5, 8, 16, 17, 24, 33))
     for _ in range(rng.randint(2, 7) if not big else rng.randint(1, 3)):
         r = rng.random()
